@@ -14,6 +14,8 @@ MUT = os.environ.get("SEED_MUT", "/tmp/mut")
 OUT = "/verif/seeded"
 # second wave: out/A, out/B are stored as <id>-C, <id>-D
 NAMES = {"A": "A", "B": "B"} if not os.environ.get("SEED_WAVE2") else {"A": "C", "B": "D"}
+if os.environ.get("SEED_NAMES"):  # e.g. SEED_NAMES=E,F for a third wave
+    NAMES = dict(zip("AB", os.environ["SEED_NAMES"].split(",")))
 
 
 def sh(cmd, cwd=None, timeout=900):
